@@ -9,7 +9,8 @@ EXPLANATION = (
     "insimver != VERSION with x that very field; Ok otherwise; VERSION = 9 by const evaluation. R9.2: in both read loops the gate call "
     "is dominated by the true edge of a test of self.verify_version, inspects the packet just decoded, its Err is propagated with `?`, "
     "it lies on every path from the enabled edge to `return Ok(packet)`, and between decode and return the only error exits are the "
-    "gate and the keep-alive reply. The builder forwards its verify_version flag to the connection in the TCP/UDP branches. "
+    "gate and the keep-alive reply. The builder forwards its verify_version flag to the connection in the TCP/UDP branches. IS_VER's layout "
+    "equals the specification's on both sides, so the compared value is the reported InSimVer byte. "
     "Not decided: histories beyond one packet (the loop returns after each delivered packet)."
 )
 
